@@ -52,6 +52,30 @@ def value_cfgs(rng, n, with_ns=True):
                        nss=with_ns and rng.random() < .3))
     return out
 
+def pairwise_cfgs(with_eager=False):
+    """a small set of configurations in which every PAIR of settings of the flags (numbers, booleans, IPs, namespaces, encryption,
+    selective regexp[, field names]) occurs together at least once (greedy covering array, fixed seed)"""
+    import itertools
+    factors = ['nums', 'bools', 'ips', 'nss', 'encrypt', 're'] + (['eager'] if with_eager else [])
+    r = random.Random(20260930)
+    need = {(i, a, j, b) for i, j in itertools.combinations(range(len(factors)), 2) for a in (0, 1) for b in (0, 1)}
+    rows = []
+    while need:
+        best, bestc = None, -1
+        for _ in range(200):
+            row = tuple(r.randint(0, 1) for _ in factors)
+            cov = sum(1 for (i, a, j, b) in need if row[i] == a and row[j] == b)
+            if cov > bestc: best, bestc = row, cov
+        rows.append(best)
+        need = {(i, a, j, b) for (i, a, j, b) in need if not (best[i] == a and best[j] == b)}
+    out = []
+    for k, row in enumerate(rows):
+        f = dict(zip(factors, row))
+        out.append(Cfg(repl=REPLS[k % len(REPLS)], nums=bool(f['nums']), bools=bool(f['bools']), ips=bool(f['ips']), nss=bool(f['nss']),
+                       encrypt=bool(f['encrypt']), key=KEY if f['encrypt'] else None, re='^(ssn|name|uf_a)$' if f['re'] else '',
+                       eager=(['mydb', 'shop.events'] if f.get('eager') else [])))
+    return out
+
 def fixture_lines():
     import glob
     out = []
